@@ -106,6 +106,29 @@ func corpusC02() []*Case {
 			pk("a-doc", "1.0").iif("a"), pk("b-doc", "1.0").iif("b"), pk("c-doc", "1.0").iif("c=2.0"), pk("c-old", "1.0").iif("c=1.0"),
 			pk("ab-glue", "1.0").iif("a", "b"), pk("docs", "1.0").iif("a-doc", "b-doc")},
 		w("app"), w("app", "a-doc"), w("a", "app"), w("app", "docs")))
+	// replays of the fixed findings C08-F1 (order) and C08-F3 (chain membership): one answer each
+	cs = append(cs, single("fixed c03e0c0 (was C08-F1): two install_if packages, order is list order",
+		[]Pkg{pk("w", "1", "a", "b"), pk("a", "1"), pk("b", "1"), pk("a-x", "1").iif("a"), pk("b-x", "1").iif("b")},
+		w("w"), w("w"), w("w"), w("b", "w"), w("w", "b-x")))
+	cs = append(cs, single("fixed c03e0c0 (was C08-F3): chained install_if always fires",
+		[]Pkg{pk("w", "1", "a"), pk("a", "1"), pk("c", "1").iif("b"), pk("b", "1").iif("a")},
+		w("w"), w("w"), w("w"), w("a"), w("a", "w")))
+	// corners of the index-order loop
+	cs = append(cs, single("install_if: chain of three, package before its trigger in the index, waits for two appended packages",
+		[]Pkg{pk("z3", "1").iif("z2"), pk("z2", "1").iif("z1"), pk("z1", "1").iif("a"), pk("join", "1").iif("z3", "b-x"),
+			pk("w", "1", "a", "b"), pk("a", "1"), pk("b", "1"), pk("b-x", "1").iif("b")},
+		w("w"), w("a"), w("b", "a"), w("w", "join")))
+	cs = append(cs, single("install_if: name=version keys — right version, wrong version, shadowed by an unversioned key of the same name, another operator",
+		[]Pkg{pk("w", "1", "a", "b", "c"), pk("a", "1.0"), pk("b", "2.0"), pk("c", "3.0"),
+			pk("a-v", "1").iif("a=1.0"), pk("a-w", "1").iif("a=9.9"),
+			pk("b-v", "1").iif("b=2.0"), pk("b-any", "1").iif("b", "nosuch"), // installIfMap["b"] exists: the key b=2.0 is never looked up
+			pk("c-op", "1").iif("c>3.0"), pk("c-op2", "1").iif("c<1.0"), pk("c-v", "1").iif("c=3.0"),
+			pk("a-v-more", "1").iif("a-v=1"), pk("a-v-less", "1").iif("a-v=2")},
+		w("w"), w("a"), w("b"), w("c", "a")))
+	cs = append(cs, single("install_if: entry on a provided name, two versions of one install_if package, install_if package that is also a dependency",
+		[]Pkg{pk("w", "1", "a", "v"), pk("a", "1"), pk("p", "1").prov("v=1"), pk("on-v", "1").iif("v"), pk("on-p", "1").iif("p"),
+			pk("a-doc", "1.0").iif("a"), pk("a-doc", "2.0").iif("a"), pk("u", "1", "a-doc"), pk("a-doc-x", "1").iif("a-doc=2.0"), pk("a-doc-y", "1").iif("a-doc=1.0")},
+		w("w"), w("u"), w("u", "w"), w("w", "u"), w("a-doc=1.0", "w")))
 	return cs
 }
 
@@ -145,5 +168,19 @@ func corpusC14() []*Case {
 		s.Runs[i].Multi, s.Runs[i].Plain = true, true
 	}
 	cs = append(cs, s)
+	// the former false alarm of this check (install_if additions in map order, C08-F1): with the
+	// index-order loop both calls give the same ORDERED list
+	s2 := single("single architecture with install_if additions: same ordered list with allArchs={arch} and nil",
+		[]Pkg{pk("w", "1", "g", "l"), pk("g", "1"), pk("l", "1"), pk("l-doc", "1").iif("l"), pk("g-g-glue", "1").iif("g"), pk("both", "1").iif("l-doc", "g-g-glue")},
+		w("w"), w("w"), w("l", "g"), w("g", "w"))
+	for i := range s2.Runs {
+		s2.Runs[i].Multi, s2.Runs[i].Plain = true, true
+	}
+	cs = append(cs, s2)
+	// C14-F1 with a chain: the install_if member missing elsewhere pulls in a second one
+	cs = append(cs, multi("C14-F1 through a chain of install_if packages",
+		[]Arch{arch("x86_64", index("", 0, "x86_64", pk("w", "1", "a"), pk("a", "1"), pk("a-x", "1").iif("a"), pk("a-x-y", "1").iif("a-x"), pk("a-z", "1").iif("a=1"))),
+			arch("aarch64", index("", 0, "aarch64", pk("w", "1", "a"), pk("a", "1"), pk("a-z", "1").iif("a=1")))},
+		w("w"), w("a")))
 	return cs
 }
